@@ -1,6 +1,7 @@
 package fakes
 
 import (
+	"time"
 	"bytes"
 	"fmt"
 	"io"
@@ -109,6 +110,7 @@ type Loopback struct {
 	pc      net.PacketConn
 	Chunks  [][]byte // one per UDP datagram, or one per TCP connection (whole stream)
 	conns   int
+	active  int // TCP connections whose reader has not seen EOF / an error yet
 	open    []net.Conn
 	closed  bool
 	wg      sync.WaitGroup
@@ -158,12 +160,18 @@ func NewLoopback(network string) (*Loopback, error) {
 			idx := len(l.Chunks)
 			l.Chunks = append(l.Chunks, nil)
 			l.conns++
+			l.active++
 			l.open = append(l.open, c)
 			l.mu.Unlock()
 			l.wg.Add(1)
 			go func() {
 				defer l.wg.Done()
 				defer c.Close()
+				defer func() {
+					l.mu.Lock()
+					l.active--
+					l.mu.Unlock()
+				}()
 				buf := make([]byte, 1<<16)
 				for {
 					n, err := c.Read(buf)
@@ -201,6 +209,24 @@ func (l *Loopback) Snapshot() [][]byte {
 		out[i] = append([]byte(nil), c...)
 	}
 	return out
+}
+
+// WaitEOF waits until at least one TCP connection was accepted and every accepted connection has been read to its
+// end (the peer closed it): after that the captured streams are complete. It is a progress wait, not a quiet period.
+func (l *Loopback) WaitEOF(d time.Duration) bool {
+	deadline := time.Now().Add(d)
+	for {
+		l.mu.Lock()
+		done := l.conns > 0 && l.active == 0
+		l.mu.Unlock()
+		if done {
+			return true
+		}
+		if time.Now().After(deadline) {
+			return false
+		}
+		time.Sleep(100 * time.Microsecond)
+	}
 }
 
 func (l *Loopback) Total() int {
